@@ -29,6 +29,10 @@ NARROW = [("hilbert", "u8", (9, 3)), ("hilbert", "u8", (17, 2)), ("hilbert", "u8
           ("hilbert", "u32", (300, 300)), ("mortonT", "u32", (70, 3, 70))]
 
 
+NARROW_IX = [("mortonF", "u8", (16, 16)), ("mortonT", "u8", (9, 3)), ("hilbert", "u8", (16, 9)), ("mortonF", "u8", (3, 4, 2, 1)), ("mortonF", "u8", (5, 3)),
+             ("hilbert", "u16", (129, 200)), ("mortonF", "u16", (256, 256)), ("mortonT", "u16", (33, 2, 40)), ("hilbert", "u32", (40, 40))]
+
+
 def evaluate(ctx, lines, rle, all8, allocs, cfgs):
     corr = Corr()
     for o in ("round_pow2", "ipow", "curve_len"):
@@ -150,6 +154,23 @@ def evaluate(ctx, lines, rle, all8, allocs, cfgs):
                     corr.sample({"alloc": [lay, sz], "impl": a, "model": mlen, "last_index": i})
             # the same consequence with narrow coordinate types (cell count within the coordinate type, as the row-major source
             # needs): the curve storage is sized in size_t, never in the coordinate type, and every cell is found again
+            # ... and beneath an array whose INDEX type is narrow, padded to exactly 2^bits cells
+            nix = [(lay, ct, list(sz)) for lay, ct, sz in NARROW_IX if any(lay == a_[0] for a_ in allocs)]
+            if nix:
+                xm = C.run_driver("driver", [L.model_line(lay, "u64", sz, [s - 1 for s in sz]) for lay, ct, sz in nix])
+                xo, _ = C.run_lines(exes[("layout", cfg)], [f"allocix {lay} {ct} {len(sz)} {' '.join(map(str, sz))}" for lay, ct, sz in nix],
+                                    timeout_per_line=2.0)
+                for (lay, ct, sz), o, m in zip(nix, xo, xm):
+                    corr.configs[cfg] += 1
+                    corr.case(("allocix", lay, ct, sz, cfg), True)
+                    corr.dist[f"curve_len/{lay}/index-{ct}"] += 1
+                    mlen = int(m.split()[1])
+                    dis = o != f"{mlen} 0"
+                    corr.add_obl("curve_len", 1, 1 if dis else 0)
+                    if dis:
+                        corr.violation("curve_len", f"{lay} {sz} over an array with a {ct} index: answer `{o}` (cells allocated, cells lost), model {mlen} 0",
+                                       {"allocix": [lay, ct, sz], "cfg": cfg}, impl=o, model=f"{mlen} 0", oracle_fails=True,
+                                       key={"kind": "allocix", "lay": lay, "ct": ct, "sz": sz}, cfg=cfg)
             nar = [(lay, ct, list(sz)) for lay, ct, sz in NARROW if any(lay == a_[0] for a_ in allocs)]
             if nar:
                 nm = C.run_driver("driver", [L.model_line(lay, "u64", sz, [s - 1 for s in sz]) for lay, ct, sz in nar])
@@ -223,6 +244,8 @@ def replay(ctx):
     cfg = [c.get("cfg", "dbg")]
     if "alloc" in c:
         return evaluate(ctx, [], [], False, [tuple(c["alloc"])], cfg)
+    if "allocix" in c:
+        return evaluate(ctx, [], [], False, [(c["allocix"][0], [2, 2])], cfg)
     if "allocct" in c:        # the fixed narrow-coordinate list runs whenever an allocation of that layout is checked
         return evaluate(ctx, [], [], False, [(c["allocct"][0], [2, 2])], cfg)
     if "line" in c and c["line"] and not c["line"].startswith("ipowall"):
